@@ -119,6 +119,16 @@ func checkConfigCompatibility(
 			return fmt.Errorf("orchestration/keys must not change: old=%s, new=%s", oldKeys, newKeys)
 		}
 	}
+	{
+		// The record allocator is created by the first Loader, shared with the inputs and carried over on reloading.
+		// It counts one reference per output for every new record, while pipelines release each record once per
+		// output: more outputs would cause negative reference count (panic), fewer would stop records from recycling.
+		oldNum := len(oldConf.OutputBuffersPairs)
+		newNum := len(newConf.OutputBuffersPairs)
+		if oldNum != newNum {
+			return fmt.Errorf("outputBufferPairs: the number of outputs must not change: old=%d, new=%d", oldNum, newNum)
+		}
+	}
 
 	// check schema fields last because other comparisons are more verbose
 	{
